@@ -14,6 +14,11 @@ the model follows ("registered with exactly the targets it was created with").  
 is a registered target ("removal of target nodes": outside the claim) the comparison of that history stops there.
 ["new", cls, vs, "nx"]: the constructor gets networkx graph objects per layer (nodes vs, no edges); every "nx" new of one
 history gets the SAME objects, which must stay untouched and must not be shared by the graphs built from them.
+ATTRIBUTE ops (the model ignores attributes: registries are the only source of truth, so these are no-ops / a plain add_node):
+["nodeattr", o, n, key, val] = add_node(n, **{key: val}) with keys named like the library's own ("domain_ids", "S-nodes", ...);
+["setattr", o, [2, n] | [kind, pos], how, key, val] edits node data of an ordinary / F- / S-node: how = "set" (G.nodes[x][key] = val),
+"del" (G.nodes[x].pop(key, None)), "nxset" (nx.set_node_attributes); keys may be str, int or tuple;
+["gattr", o, key, val] = G.graph[key] = val for keys other than the two registries.  val is never a str (ints, lists -> tuples, None).
 case["obs"] = "all" (default: every live object is observed after every op, so each op runs on objects whose f_nodes /
 s_nodes / intervention_sets / domain_ids / children were just queried -- a cached property would go stale) or "last"
 (nothing is queried before the final op: statuses are compared at every step, observables only at the end).
@@ -30,8 +35,10 @@ import graphs as gr
 PROP = "C20"
 MODE = 1 if os.environ.get("C20_ASIS") else 0
 FIELDS = ["cls", "nodes", "F-registry", "S-registry", "unregistered-aug-nodes", "edges", "domains",
-          "intervention_sets", "domain_ids", "f_nodes/s_nodes"]
-OPN = {"new": 0, "copy": 1, "addf": 2, "addfs": 3, "adds": 4, "rm": 5, "rmfrom": 6, "node": 7, "edge": 8, "addfa": 2, "addfall": 9}
+          "intervention_sets", "domain_ids", "f_nodes/s_nodes/non_augmented_nodes/augmented_nodes"]
+OPN = {"new": 0, "copy": 1, "addf": 2, "addfs": 3, "adds": 4, "rm": 5, "rmfrom": 6, "node": 7, "edge": 8, "addfa": 2, "addfall": 9,
+       "nodeattr": 7, "setattr": 6, "gattr": 6}
+LIB_KEYS = ["domain_ids", "S-nodes", "F-nodes", "targets", "domain", "domains", "invariant_domains"]
 
 RULE = ("histories over 1-3 live objects (AugmentedGraph and AugmentedPAG, also mixed), ordinary nodes 0..2 (+3 via add_node): "
         "ALL histories of length <=3 (quick) / <=4 (thorough; at length 4 at most 2 live objects) over the reduced alphabet "
@@ -78,6 +85,20 @@ def alphabet_aug(nobj, maxobj, cls, nx=False):
     for o in range(nobj):
         ops += [["addf", o, [0]], ["adds", o, 1, 2, [0]], ["addfa", o, [1], [[0, 0]]], ["addfa", o, [], [[0, 0], [1, 0]]],
                 ["addfall", o], ["rm", o, 0, 0], ["rm", o, 0, 1], ["rm", o, 1, 0]]
+    return ops
+
+
+def alphabet_attr(nobj, maxobj, cls, nx=False):
+    """reduced alphabet around node / graph attributes named like the library's own, and copies (of copies)"""
+    ops = []
+    if nobj < maxobj:
+        for o in range(nobj):
+            ops.append(["copy", o])
+    for o in range(nobj):
+        ops += [["adds", o, 1, 2, [0]], ["addf", o, [0]], ["rm", o, 1, 0],
+                ["nodeattr", o, 3, "domain_ids", [3, 4]], ["setattr", o, [2, 0], "set", "domain_ids", [5, 6]],
+                ["setattr", o, [1, 0], "del", "domain_ids", None], ["setattr", o, [1, 0], "nxset", "domain_ids", [7, 8]],
+                ["setattr", o, [0, 0], "set", "domain_ids", [1, 2]], ["gattr", o, "domain_ids", [9, 9]]]
     return ops
 
 
@@ -199,6 +220,17 @@ def random_history(rng, length):
             ops.append(["rmfrom", o, items, ak])
             for k, _ in items:
                 nreg[o][k] = max(0, nreg[o][k] - 1)
+        elif r < 0.885:
+            key = rng.choice(LIB_KEYS + ["domain_ids", "domain_ids", 5, ["a", 1]])
+            val = rng.choice([[1, 2], [3, 4], None, 7, []])
+            q = rng.random()
+            if q < 0.3 and isinstance(key, str):
+                ops.append(["nodeattr", o, rng.randrange(5), key, val])
+            elif q < 0.85:
+                tgt = [2, rng.randrange(5)] if rng.random() < 0.4 else [rng.randint(0, 1), rng.randrange(3)]
+                ops.append(["setattr", o, tgt, rng.choice(["set", "set", "del", "nxset"]), key, val])
+            else:
+                ops.append(["gattr", o, rng.choice(["domain_ids", "domains", "n_domains", "S-node", 3, ["F", 0]]), val])
         elif r < 0.92:
             ops.append(["node", o, rng.randrange(5)])
         else:
@@ -225,6 +257,10 @@ def gen_cases(tier, rng):
             for h in histories(n, cls, maxobj=2, alpha=alphabet_aug):
                 if any(op[0] in ("addfa", "addfall") for op in h):
                     yield {"kind": "exh%d-augtargets" % n, "ops": h}
+        for n in range(2, 4 if tier == "quick" else 5):
+            for h in histories(n, cls, maxobj=3, alpha=alphabet_attr):
+                if any(op[0] in ("nodeattr", "setattr", "gattr") for op in h) and any(op[0] == "copy" for op in h):
+                    yield {"kind": "exh%d-attrs" % n, "ops": h}
     if tier != "quick":
         for cls in (0, 1):
             for h in histories(4, cls, maxobj=2):
@@ -245,6 +281,10 @@ def _argkind(op):
 
 def enc_op(op, nops):
     t = OPN[op[0]]
+    if op[0] == "nodeattr" or (op[0] == "setattr" and op[2][0] == 2):
+        return [7, op[1], op[2] if op[0] == "nodeattr" else op[2][1]]      # model: plain add_node (no-op when present)
+    if op[0] in ("setattr", "gattr"):
+        return [6, op[1], []]                                              # model: no-op (remove_nodes_from([]))
     body = list(op[1:-1]) if isinstance(op[-1], str) else list(op[1:])
     if op[0] == "rmfrom" and _argkind(op) in ("keysF", "keysS"):   # every position the registry can have
         k = 0 if _argkind(op) == "keysF" else 1
@@ -262,7 +302,7 @@ def _derived(obj):
     F, S = obj[2], obj[3]
     isets = sorted({(tuple(e[1]), tuple(tuple(p) for p in e[4])) for e in F})
     dids = sorted({d for e in S for d in (e[1], e[2])})
-    return list(obj) + [[[list(t[0]), [list(p) for p in t[1]]] for t in isets], dids, [len(F), len(S)]]
+    return list(obj) + [[[list(t[0]), [list(p) for p in t[1]]] for t in isets], dids, [len(F), len(S), 1, 1]]
 
 
 def decode(case, v):
@@ -305,7 +345,9 @@ def _render(G, inv):
     isets = sorted({(tuple(split(s)[0]), tuple(tuple(p) for p in split(s)[1])) for s in G.intervention_sets})
     return [0 if type(G).__name__ == "AugmentedGraph" else 1, ordn, F, S, stray, edges, sorted(G.domains),
             [[list(t[0]), [list(p) for p in t[1]]] for t in isets], sorted(G.domain_ids),
-            [len(G.f_nodes) if G.f_nodes == list(freg) else -1, len(G.s_nodes) if G.s_nodes == list(sreg) else -1]]
+            [len(G.f_nodes) if G.f_nodes == list(freg) else -1, len(G.s_nodes) if G.s_nodes == list(sreg) else -1,
+             int(set(G.non_augmented_nodes) == {n for n in nodes if is_ord(n)}),
+             int(list(G.augmented_nodes) == list(freg) + list(sreg))]]
 
 
 def run_impl(case):
@@ -430,6 +472,26 @@ def run_impl(case):
                     G.remove_nodes_from(as_kind(names, ak, G))
                 elif t == "node":
                     G.add_node(lab(op[2]))
+                elif t == "nodeattr":
+                    G.add_node(lab(op[2]), **{op[3]: _val(op[4])})
+                elif t == "gattr":
+                    G.graph[_val(op[2])] = _val(op[3])
+                elif t == "setattr":
+                    if op[2][0] == 2:
+                        x = lab(op[2][1])
+                        if x not in G.nodes:
+                            G.add_node(x)
+                    else:
+                        keys = list(G.graph["F-nodes" if op[2][0] == 0 else "S-nodes"])
+                        x = keys[op[2][1]] if op[2][1] < len(keys) and keys[op[2][1]] in G.nodes else None
+                    if x is not None:
+                        key, val = _val(op[4]), _val(op[5])
+                        if op[3] == "set":
+                            G.nodes[x][key] = val
+                        elif op[3] == "del":
+                            G.nodes[x].pop(key, None)
+                        else:
+                            nx.set_node_attributes(G, {x: val}, key)
                 elif t == "edge":
                     G.add_edge(lab(op[2]), lab(op[3]), G.directed_edge_name)
         except RuntimeError:
@@ -440,6 +502,10 @@ def run_impl(case):
             reused = 2
         trace.append([st, None if quiet else [_render(G, inv) for G in objs], reused])
     return trace
+
+
+def _val(v):
+    return tuple(_val(x) for x in v) if isinstance(v, list) else v
 
 
 def _is_ord(inv, n):
